@@ -79,6 +79,10 @@ FBool(name, t)        == Fd(name, t, "bool")
 FBytes(name, t)       == Fd(name, t, "bytes")
 FText(name, t)        == Fd(name, t, "text")
 FName(name, t)        == Fd(name, t, "name")
+\* the Name of an Interest (InterestNameField): at most one component of the ParametersSha256Digest type (2) - the one
+\* component the signature does not cover; marked by fixed = 2 on the name descriptor
+FIName(name, t)       == [Fd(name, t, "name") EXCEPT !.fixed = 2]
+OneDigest(d, e)       == d.fixed # 2 \/ Cardinality({i \in 1 .. Len(e.kids) : e.kids[i].fits /\ e.kids[i].t = NumOfInt(2)}) <= 1
 FModel(name, t, sub, ic) == [Fd(name, t, "model") EXCEPT !.sub = sub, !.ic = ic]
 FRep(name, ed)        == [Fd(name, ed.t, "repeated") EXCEPT !.elem = <<ed>>]
 FMap(name, kd, vd)    == [Fd(name, kd.t, "map") EXCEPT !.elem = <<kd, vd>>]
@@ -176,7 +180,7 @@ Res(ok, fv, why) == [ok |-> ok, fv |-> fv, why |-> why]
 Rej(st, why, br) == [st |-> [st EXCEPT !.status = "reject", !.why = why], branch |-> br]
 Ign(st, br)      == [st |-> [st EXCEPT !.pos = @ + 1], branch |-> br]
 BadBranch(why)   == CASE why = "uint-width" -> "BadUintWidth"
-                      [] why \in {"name-component-overrun", "name-truncated-number"} -> "BadName"
+                      [] why \in {"name-component-overrun", "name-truncated-number", "name-digest-twice"} -> "BadName"
                       [] OTHER -> "BadNested"
 
 RECURSIVE ParseValue(_, _), ScanStep(_, _, _, _), ScanLoop(_, _, _, _)
@@ -187,7 +191,9 @@ ParseValue(d, e) ==
     [] d.kind = "bool" -> Res(TRUE, [k |-> "bool"], "")
     [] d.kind = "bytes" -> Res(TRUE, [k |-> "bytes", runs |-> e.runs], "")
     [] d.kind = "text" -> Res(TRUE, [k |-> "text", runs |-> e.runs], "")
-    [] d.kind = "name" -> (IF \A i \in 1 .. Len(e.kids) : e.kids[i].fits
+    [] d.kind = "name" -> (IF (\A i \in 1 .. Len(e.kids) : e.kids[i].fits) /\ ~OneDigest(d, e)
+                           THEN Res(FALSE, None, "name-digest-twice")
+                           ELSE IF \A i \in 1 .. Len(e.kids) : e.kids[i].fits
                            THEN Res(TRUE, [k |-> "name", comps |-> [i \in 1 .. Len(e.kids) |->
                                               [t |-> e.kids[i].t, runs |-> e.kids[i].runs]]], "")
                            ELSE Res(FALSE, None, IF \E i \in 1 .. Len(e.kids) : IsCut(e.kids[i])
